@@ -147,6 +147,7 @@ def erunInstr (ns : NumSem) : Nat → EInstr → List Val → List Val → ERes
          match ns.callS fn (topN n stk) with
          | .val r => afterCall stk n rt r loc .normal .stuck
          | .trap t => .trap t
+         | .oof => .oof
          | _ => .stuck)
     | .callIndirect ty _ =>
       (match ns.indArity ty with
@@ -157,6 +158,7 @@ def erunInstr (ns : NumSem) : Nat → EInstr → List Val → List Val → ERes
          match ns.indS ty idx.bits (topN n stk.dropLast) with
          | .val r => afterCall stk.dropLast n rt r loc .normal .stuck
          | .trap t => .trap t
+         | .oof => .oof
          | _ => .stuck)
     | _ => .stuck                                   -- outside the core covered by the theorem
 end
@@ -242,6 +244,7 @@ def execStmt (ns : NumSem) : Nat → MStmtC → MSt → MRes
           | some d, some v => .normal (σ.set d v)
           | _, _ => .stuck)
        | .trap t => .trap t
+       | .oof => .oof
        | _ => .stuck)
     | .callIndirect res ty _ idx args =>
       (match ns.indT ty (σ.get idx).bits (args.map σ.get) with
@@ -251,6 +254,7 @@ def execStmt (ns : NumSem) : Nat → MStmtC → MSt → MRes
           | some d, some v => .normal (σ.set d v)
           | _, _ => .stuck)
        | .trap t => .trap t
+       | .oof => .oof
        | _ => .stuck)
     | _ => .stuck                                   -- outside the core covered by the theorem
 end
